@@ -4,7 +4,7 @@
    normalize, symbolic_push, symbolic_append), in-place resolution (all five branches) and authority-handle histories. *)
 From Coq Require Import List NArith Bool Arith.
 Import ListNotations.
-Require Import V.Regex V.Parse V.ParseProofs V.PathSpec V.Splice V.Setters V.Push V.Auth V.AuthProofs V.AuthMut V.AuthMutProofs2 V.RefPath V.RefAuth V.C04Proofs V.C04Proofs2 V.Abnf V.BridgePaths V.C02Bridge V.ValidSetInst V.C04Valid V.C04Valid2 V.ResolveValid V.C04Valid3 V.PathBufValid.
+Require Import V.Regex V.Parse V.ParseProofs V.PathSpec V.Splice V.Setters V.Push V.Auth V.AuthProofs V.AuthMut V.AuthMutProofs2 V.RefPath V.RefAuth V.C04Proofs V.C04Proofs2 V.Abnf V.BridgePaths V.C02Bridge V.ValidSetInst V.C04Valid V.C04Valid2 V.ResolveValid V.C04Valid3 V.PathBufValid V.AuthMut V.AuthMutProofs2 V.C11Valid V.C04Valid4.
 Local Open Scope nat_scope.
 
 Theorem C04_setter_sequences_partial : forall (ops : list sop) (p : parts), wf_parts p -> Forall arg_ok ops ->
@@ -16,11 +16,11 @@ Print Assumptions C04_setter_sequences_partial.
    sequence of the five setters whose arguments are valid values of their component types (or removals)
    returns -- no panic -- a string of the same language; with C01 (validator = language, re-proved on every run)
    the buffer re-parses as the same type after every call. *)
-Theorem C04_setters_keep_validity_URI : forall ops s, L (IRI_reference U U) s -> Forall (varg U U) ops ->
+Theorem C04_setters_keep_validity_URI : forall ops s, L (IRI_reference U U) s -> Forall (C04Valid.varg U U) ops ->
   exists s', run ops s = Some s' /\ L (IRI_reference U U) s'.
 Proof. exact valid_sequences_U. Qed.
 Print Assumptions C04_setters_keep_validity_URI.
-Theorem C04_setters_keep_validity_IRI : forall ops s, L (IRI_reference I C02Bridge.P) s -> Forall (varg I C02Bridge.P) ops ->
+Theorem C04_setters_keep_validity_IRI : forall ops s, L (IRI_reference I C02Bridge.P) s -> Forall (C04Valid.varg I C02Bridge.P) ops ->
   exists s', run ops s = Some s' /\ L (IRI_reference I C02Bridge.P) s'.
 Proof. exact valid_sequences_I. Qed.
 Print Assumptions C04_setters_keep_validity_IRI.
@@ -50,6 +50,21 @@ Theorem C04_all_mutators_keep_validity_IRI : forall ops s, L (IRI_reference I C0
   exists s', wrun ops s = Some s' /\ L (IRI_reference I C02Bridge.P) s'.
 Proof. exact valid_all_I. Qed.
 Print Assumptions C04_all_mutators_keep_validity_IRI.
+
+(* THE PROPERTY, complete, at the level of the RFC grammar: from ANY string of the URI-reference (IRI-reference)
+   language, ANY finite sequence of safe mutators -- the five setters, the six path-handle mutators, in-place
+   resolution against any URI (IRI), and whole histories of set_userinfo / set_host / set_port through an authority
+   handle -- with arguments valid for their types, runs without panic in the index-level model and leaves a string of
+   the same language; with C01 (validator = language, re-proved for the current tree on every run) the buffer
+   re-parses as the same type after every call. *)
+Theorem C04_every_mutator_keeps_validity_URI : forall ops s, L (IRI_reference U U) s -> Forall (xok U U) ops ->
+  exists s', xrun ops s = Some s' /\ L (IRI_reference U U) s'.
+Proof. exact valid_every_U. Qed.
+Print Assumptions C04_every_mutator_keeps_validity_URI.
+Theorem C04_every_mutator_keeps_validity_IRI : forall ops s, L (IRI_reference I C02Bridge.P) s -> Forall (xok I C02Bridge.P) ops ->
+  exists s', xrun ops s = Some s' /\ L (IRI_reference I C02Bridge.P) s'.
+Proof. exact valid_every_I. Qed.
+Print Assumptions C04_every_mutator_keeps_validity_IRI.
 
 (* THE OWNED PATH TYPE (PathBuf: every call takes a fresh handle on the whole buffer -- start = 0, follows_authority):
    any finite sequence of push / pop / clear / normalize / symbolic_push / symbolic_append with segment arguments of the
